@@ -89,6 +89,12 @@ def cases(tier, seed):
         for it in (1, 2, 3):
             out.append({"grid": "h211", "jitter": 2, "clamps": [[0, "curve_short"]], "link": None, "method": me, "iterations": it, "frame": 0})
             out.append({"grid": "h222", "jitter": 1, "clamps": [[0, "curve_short"]], "link": None, "method": me, "iterations": it, "frame": 4})
+    # a clamp on a corner of the grid (a point of one cell only), next to other cells
+    for me in METHODS:
+        for it in (1, 2):
+            out.append({"grid": "s31k", "jitter": 0, "clamps": [[0, "plane"]], "link": None, "method": me, "iterations": it, "frame": 0})
+        out.append({"grid": "s31k", "jitter": 0, "clamps": [[0, "plane"], [1, "plane"]], "link": None, "method": me, "iterations": 2, "frame": 0})
+        out.append({"grid": "s31k", "jitter": 0, "clamps": [[0, "line"]], "link": None, "method": me, "iterations": 1, "frame": 4})
     # the stopping rule: optimize() with its default arguments and with a coarse / fine tolerance (all other cases
     # run a fixed number of iterations with tolerance 1e-12)
     for ci, cl in enumerate(CLAMPS):
@@ -193,6 +199,13 @@ def build(case):
             # the interior vertex sits on the line between the (displaced) a and b, off-centre
             P[movable[0]] = P[movable[1]] + (0.5 - 0.4 * lvl) * (P[movable[2]] - P[movable[1]])
         kind = "hex"
+    elif g == "s31k":
+        # a strip of three irregular quads; the clamped point is the outer corner, which belongs to ONE quad: moving it
+        # shifts that quad's centre and with it the non-orthogonality of the neighbour (a cell that does not hold it)
+        P = np.array([[-0.052, 0.004, 0], [0.633, -0.329, 0], [1.697, 0.033, 0], [2.892, -0.230, 0], [0.087, 0.987, 0], [1.148, 1.269, 0], [1.983, 1.222, 0], [3.116, 1.005, 0]], float)
+        cells = [[0, 1, 5, 4], [1, 2, 6, 5], [2, 3, 7, 6]]
+        movable = [0, 3]
+        kind = "quad"
     elif g == "s22c":
         P = np.array([[0, 0, 0], [1.4, 0, 0], [2, 0, 0], [-1, 1, 0], [1.4, 1, 0], [3, 1, 0], [0, 2, 0], [1, 2, 0], [2, 2, 0]], float)
         cells = [[0, 1, 4, 3], [1, 2, 5, 4], [3, 4, 7, 6], [4, 5, 8, 7]]
